@@ -12,7 +12,7 @@
 (* the bytes written to standard output.  "unsupported" means the program   *)
 (* left the calibrated subset (never reported as a violation).              *)
 (***************************************************************************)
-EXTENDS Integers, Sequences, FiniteSets, TLC, Json, IOUtils, IntN
+EXTENDS Integers, Sequences, FiniteSets, TLC, Json, IOUtils, SemCommon
 
 Progs == ndJsonDeserialize(IOEnv.PROGS)
 MaxSteps == IF "MAXSTEPS" \in DOMAIN IOEnv THEN atoi(IOEnv.MAXSTEPS) ELSE 20000
@@ -22,15 +22,6 @@ vars == <<pid, stack, heap, nxt, out, status, retv, steps>>
 
 P == Progs[pid].ast
 Blocks == P.blocks
-
-SIntTypes == {"int8", "int16", "int32", "int64", "int"}
-UIntTypes == {"uint8", "uint16", "uint32", "uint64", "uint", "byte"}
-IntTypes == SIntTypes \cup UIntTypes
-FloatTypes == {"float32", "float64"}
-Bits(t) == CASE t \in {"int8", "uint8", "byte"} -> 8 [] t \in {"int16", "uint16"} -> 16
-             [] t \in {"int32", "uint32"} -> 32 [] OTHER -> 64
-Signed(t) == t \in SIntTypes
-WrapT(t, n) == IF t = "untyped" THEN n ELSE Wrap(Bits(t), Signed(t), n)
 
 Max(S) == CHOOSE x \in S : \A y \in S : y <= x
 Min(S) == CHOOSE x \in S : \A y \in S : x <= y
@@ -42,8 +33,6 @@ VStr(bs) == [k |-> "str", v |-> bs]
 VUnit == [k |-> "unit"]
 VNil == [k |-> "nil"]
 VFn(n) == [k |-> "fn", n |-> n]
-VFloat(t, num, den) == [k |-> "float", t |-> t, num |-> num, den |-> den]
-VBad(why) == [k |-> "bad", why |-> why]        \* outside the modelled subset
 VPanic(why) == [k |-> "panic", why |-> why]    \* Go run-time panic
 IsBad(v) == v.k \in {"bad", "panic"}
 EmptySlice(et) == [k |-> "slice", a |-> 0, len |-> 0, cap |-> 0]
@@ -86,17 +75,6 @@ Zero(ty) ==
               ELSE IF d.k = "alias" THEN Zero(d.t)
               ELSE VBad("zero value")
     [] OTHER -> VBad("zero value")
-
-\* ---------------------------------------------------------------- floats: exact dyadic rationals
-RECURSIVE Gcd(_, _)
-Gcd(a, b) == IF b = 0 THEN a ELSE Gcd(b, a % b)
-IsPow2(n) == n \in {2 ^ i : i \in 0..24}
-FNorm(t, num, den) ==       \* den > 0
-  IF NAbs(num) >= 1073741824 \/ den >= 1073741824 THEN VBad("float out of the modelled range")
-  ELSE LET g == Gcd(NAbs(num), den) n == IF g = 0 THEN 0 ELSE num \div g d == IF g = 0 THEN 1 ELSE den \div g IN
-       IF IsPow2(d) /\ NAbs(n) < 16777216 THEN VFloat(t, n, d)       \* exactly representable in float32 and float64
-       ELSE VBad("float result not exactly representable (rounding not modelled)")
-FloatOfLit(e, t) == IF e.exact THEN FNorm(t, e.num, e.den) ELSE VBad("float literal")
 
 \* ---------------------------------------------------------------- conversion of untyped constants to their context
 Conv(v, ty) ==
@@ -153,15 +131,6 @@ Quotable(bs) ==
   ELSE IF Head(bs) < 128 THEN Quotable(Tail(bs))
   ELSE /\ Len(bs) >= 2 /\ Head(bs) >= 195 /\ Head(bs) <= 223 /\ bs[2] >= 128 /\ bs[2] <= 191     \* U+00C0..U+07FF
        /\ Quotable(Tail(Tail(bs)))
-
-\* %v of a float with a finite short decimal expansion (dyadic, small exponent)
-RECURSIVE FracDigits(_, _, _)
-FracDigits(r, den, n) == IF r = 0 \/ n = 0 THEN <<>> ELSE <<48 + ((r * 10) \div den)>> \o FracDigits((r * 10) % den, den, n - 1)
-FloatV(v) ==
-  LET a == NAbs(v.num) ip == a \div v.den fr == a % v.den IN
-  IF v.den > 65536 \/ ip >= 2097152 THEN <<63>>          \* exponent form not modelled ('?' marks it; callers check FloatOK)
-  ELSE (IF v.num < 0 THEN <<45>> ELSE <<>>) \o SmallDigits(ip) \o (IF fr = 0 THEN <<>> ELSE <<46>> \o FracDigits(fr, v.den, 20))
-FloatOK(v) == v.den <= 65536 /\ (NAbs(v.num) \div v.den) < 2097152 /\ (v.num = 0 \/ NAbs(v.num) * 10000 >= v.den)
 
 TypeNameBytes(t) ==   \* names that can appear in %!d(T=..) bad-verb output
   CASE t = "float32" -> <<102, 108, 111, 97, 116, 51, 50>> [] t = "float64" -> <<102, 108, 111, 97, 116, 54, 52>>
